@@ -80,6 +80,9 @@ type scenario struct {
 	pre   *merr  // error of validateIdentifiers / factory
 	preBy string // "factory" | "invalid-id"
 	polls []pollScript
+	// customReaders: the engine is configured with two custom status readers (StatefulSet, Deployment)
+	// in front of the default one; which reader is asked is checked by the readers themselves
+	customReaders bool
 }
 
 type taggedItem struct {
@@ -171,7 +174,39 @@ func (e *env) ListClusterScoped(context.Context, *unstructured.UnstructuredList,
 
 func (e *env) Supports(schema.GroupKind) bool { return true }
 
-func (e *env) ReadStatus(ctx context.Context, _ engine.ClusterReader, id object.ObjMetadata) (*event.ResourceStatus, error) {
+// kindReader is a custom status reader for one kind (PollerEngine.StatusReaders): the engine must hand
+// every identifier of that kind to the first reader that supports it and everything else to the default
+// reader. Asked about another kind it fails with an error the script does not contain.
+type kindReader struct {
+	e    *env
+	kind string
+}
+
+func (k *kindReader) Supports(gk schema.GroupKind) bool { return gk.Kind == k.kind }
+func (k *kindReader) ReadStatus(ctx context.Context, cr engine.ClusterReader, id object.ObjMetadata) (*event.ResourceStatus, error) {
+	if id.GroupKind.Kind != k.kind {
+		return nil, fmt.Errorf("reader of %s asked about %s e994", k.kind, id.GroupKind.Kind)
+	}
+	return k.e.readStatus(ctx, cr, id)
+}
+func (k *kindReader) ReadStatusForObject(context.Context, engine.ClusterReader, *unstructured.Unstructured) (*event.ResourceStatus, error) {
+	return nil, fmt.Errorf("not used")
+}
+
+var customKinds = []string{"StatefulSet", "Deployment"}
+
+func (e *env) ReadStatus(ctx context.Context, cr engine.ClusterReader, id object.ObjMetadata) (*event.ResourceStatus, error) {
+	if e.sc.customReaders {
+		for _, k := range customKinds {
+			if id.GroupKind.Kind == k {
+				return nil, fmt.Errorf("default reader asked about %s although a custom reader supports it e995", k)
+			}
+		}
+	}
+	return e.readStatus(ctx, cr, id)
+}
+
+func (e *env) readStatus(ctx context.Context, _ engine.ClusterReader, id object.ObjMetadata) (*event.ResourceStatus, error) {
 	e.mu.Lock()
 	defer e.mu.Unlock()
 	p := e.sc.polls[e.cur]
@@ -245,7 +280,7 @@ func runEngineWith(sc *scenario, e *env, cr engine.ClusterReader) observation {
 	e.sc, e.cur, e.cancel, e.tags = sc, -1, cancel, map[*event.ResourceStatus]int{}
 	var obs observation
 	pe := engine.PollerEngine{
-		Mapper:              mapper,
+		Mapper:              brokenKindMapper{mapper},
 		DefaultStatusReader: e,
 		StatusReaders:       []engine.StatusReader{},
 		ClusterReaderFactory: engine.ClusterReaderFactoryFunc(func(client.Reader, meta.RESTMapper, object.ObjMetadataSet) (engine.ClusterReader, error) {
@@ -258,6 +293,11 @@ func runEngineWith(sc *scenario, e *env, cr engine.ClusterReader) observation {
 			}
 			return cr, nil
 		}),
+	}
+	if sc.customReaders {
+		for _, k := range customKinds {
+			pe.StatusReaders = append(pe.StatusReaders, &kindReader{e: e, kind: k})
+		}
 	}
 	ids := make(object.ObjMetadataSet, len(sc.ids))
 	for i, k := range sc.ids {
@@ -318,6 +358,9 @@ func (sc *scenario) coq(obs observation) string {
 func (sc *scenario) text(obs observation) string {
 	var b strings.Builder
 	fmt.Fprintf(&b, "ids=%v", sc.ids)
+	if sc.customReaders {
+		b.WriteString(" custom-readers")
+	}
 	if sc.pre != nil {
 		fmt.Fprintf(&b, " pre=%s(%s)", sc.pre.coq(), sc.preBy)
 	}
@@ -439,7 +482,10 @@ func genErr(r *rand.Rand, ctxClass bool) merr {
 }
 
 func genScenario(r *rand.Rand, maxPolls int, sum *emit.Summary) *scenario {
-	sc := &scenario{}
+	sc := &scenario{customReaders: r.Intn(3) == 0}
+	if sc.customReaders {
+		sum.Count("engine:custom-status-readers")
+	}
 	n := r.Intn(5)
 	perm := r.Perm(len(polledIDs))
 	for i := 0; i < n; i++ {
@@ -448,6 +494,11 @@ func genScenario(r *rand.Rand, maxPolls int, sum *emit.Summary) *scenario {
 	if n > 0 && r.Intn(8) == 0 { // repeated identifier
 		sc.ids = append(sc.ids, sc.ids[r.Intn(n)])
 		sum.Count("engine:duplicate-id")
+	}
+	if r.Intn(6) == 0 { // a kind unknown to the REST mapper, anywhere in the list: polled like the others
+		at := r.Intn(len(sc.ids) + 1)
+		sc.ids = append(sc.ids[:at], append([]int{noMatchID}, sc.ids[at:]...)...)
+		sum.Count("engine:unknown-kind-identifier")
 	}
 	switch k := r.Intn(40); {
 	case k < 2:
@@ -458,11 +509,16 @@ func genScenario(r *rand.Rand, maxPolls int, sum *emit.Summary) *scenario {
 		sc.ids = append(sc.ids, invalidID)
 		sc.pre, sc.preBy = &merr{kind: 2, code: 999}, "invalid-id"
 		sum.Count("engine:invalid-identifier")
+	case k < 4: // the REST mapper fails (not a NoMatch error) for one identifier, anywhere in the list
+		at := r.Intn(len(sc.ids) + 1)
+		sc.ids = append(sc.ids[:at], append([]int{mapperErrID}, sc.ids[at:]...)...)
+		sc.pre, sc.preBy = &merr{kind: 2, code: 997}, "invalid-id"
+		sum.Count("engine:mapper-error")
 	}
 	malformed := r.Intn(12) == 0
 	cur := map[int]mrs{}
 	for _, i := range sc.ids {
-		if i != invalidID {
+		if !preID(i) {
 			cur[i] = genRS(r, i)
 		}
 	}
@@ -470,7 +526,7 @@ func genScenario(r *rand.Rand, maxPolls int, sum *emit.Summary) *scenario {
 	for k := 0; k < np; k++ {
 		p := pollScript{reads: map[int]reading{}}
 		for _, i := range sc.ids {
-			if _, seen := p.reads[i]; seen || i == invalidID {
+			if _, seen := p.reads[i]; seen || preID(i) {
 				continue
 			}
 			if k > 0 {
@@ -525,7 +581,7 @@ func genScenario(r *rand.Rand, maxPolls int, sum *emit.Summary) *scenario {
 	if r.Intn(4) == 0 && (last.cancel != nil || last.sync != nil) {
 		extra := pollScript{reads: map[int]reading{}}
 		for _, i := range sc.ids {
-			if _, seen := extra.reads[i]; seen || i == invalidID {
+			if _, seen := extra.reads[i]; seen || preID(i) {
 				continue
 			}
 			c := genRS(r, i)
@@ -576,5 +632,21 @@ func corpus() []*scenario {
 		mk([]int{}, []mrs{}, []mrs{}),
 		// message only
 		mk([]int{3}, []mrs{leaf(3, 0, "1/2 ready", i64(1))}, []mrs{leaf(3, 0, "2/2 ready", i64(1))}, []mrs{leaf(3, 0, "2/2 ready", i64(1))}),
+		// a kind the REST mapper does not know (custom resource next to its CRD) is polled like any other
+		mk([]int{noMatchID, 2}, []mrs{leaf(noMatchID, 4, "Resource not found", nil), leaf(2, 0, "m", i64(1))},
+			[]mrs{leaf(noMatchID, 2, "ok", i64(1)), leaf(2, 0, "m", i64(1))}),
+		// custom status readers for two kinds in front of the default reader
+		func() *scenario {
+			sc := mk([]int{2, 6, 0}, []mrs{leaf(2, 0, "m", i64(1)), leaf(6, 0, "s", i64(1)), leaf(0, 2, "", i64(1))},
+				[]mrs{leaf(2, 2, "m", i64(1)), leaf(6, 0, "s", i64(2)), leaf(0, 2, "", i64(1))})
+			sc.customReaders = true
+			return sc
+		}(),
+		// the REST mapper fails otherwise: one error event, nothing polled
+		func() *scenario {
+			sc := mk([]int{2, mapperErrID}, []mrs{leaf(2, 0, "m", i64(1))})
+			sc.pre, sc.preBy = &merr{kind: 2, code: 997}, "invalid-id"
+			return sc
+		}(),
 	}
 }
